@@ -100,7 +100,7 @@ CLAIMED = {
    note="Binding of Pipeline.tla: every real chain run (source -> plugin -> plugin with savers, or with a loader) records, per scheduler "
         "step, the acting thread and the projection of the real mailboxes (messages pushed, END pushed, killed, force_killed, class of "
         "killed_because, _subscribers_have_read, _subscriber_waiting_for, finished threads, the caller's outcome); TLC accepts a trace iff "
-        "it is a behaviour of Pipeline.tla (PipelineTrace.tla; pcs and local buffers inferred) and evaluates the invariants along it. "
+        "it is a behaviour of Pipeline.tla (PipelineTrace.tla; pcs and local buffers inferred) and evaluates the invariants along it (a rejection is drift in the evidence, an invariant failing along a trace is a violation). "
         "Other topologies (diamond, multi-output) are judged at the P-level only. Schedules of the real pipeline are sampled; timeouts "
         "never fire; capacity 2/4 above every plugin lag.",
    technique="TLA+ model checking of the exception relay (Pipeline.tla) + TLC trace validation of real pipeline runs under a deterministic scheduler (PipelineTrace.tla) + P-level judgement by TLC (PipelineObs.tla)",
